@@ -33,6 +33,8 @@ fn tag3_value(rng: &mut Rng, tag: &str) -> String {
         "106" => format!("{}{}{}{}", s_from(rng, DIG, 6), s_from(rng, ALNUM, 12), s_from(rng, DIG, 4), s_from(rng, DIG, 6)),
         "424" => { let n = rng.range(1, 16); s_from(rng, ALNUM, n) }
         "111" => s_from(rng, DIG, 3),
+        // a UETR is hexadecimal: upper-case and mixed-case spellings are values too (kept as written)
+        "121" if rng.below(3) == 0 => { let hexu = if rng.below(2) == 0 { "0123456789ABCDEF" } else { "0123456789abcdefABCDEF" }; format!("{}-{}-4{}-A{}-{}", s_from(rng, hexu, 8), s_from(rng, hexu, 4), s_from(rng, hexu, 3), s_from(rng, hexu, 3), s_from(rng, hexu, 12)) }
         "121" => format!("{}-{}-4{}-a{}-{}", s_from(rng, "0123456789abcdef", 8), s_from(rng, "0123456789abcdef", 4), s_from(rng, "0123456789abcdef", 3), s_from(rng, "0123456789abcdef", 3), s_from(rng, "0123456789abcdef", 12)),
         "115" => { let n = rng.range(1, 32); s_from(rng, ALNUM, n) }
         // the library documents 165 as `3!c/34x`, 433/434 as `3!a/[20x]`
@@ -291,6 +293,22 @@ fn expect_reject(rep: &mut Report, text: &str, class: &str) {
     }
 }
 
+/// a header outside the documented shape that the library may accept: then it must come back verbatim, never partly read
+fn expect_reject_or_verbatim(rep: &mut Report, text: &str, block2: &str, class: &str) {
+    let t = text.to_string();
+    let r = std::panic::catch_unwind(move || SwiftParser::parse::<MT199>(&t).map(|m| m.to_mt_message()));
+    rep.case(&format!("odd {class} {text}"), true);
+    match r {
+        Err(_) => rep.fail(&format!("panic|parse|{class}"), json!({"class": class, "input_hex": hex(text)})),
+        Ok(Ok(out)) => {
+            if !out.contains(&format!("{{2:{block2}}}")) {
+                rep.fail(&format!("block_changed|application-header|{class}"), json!({"class": class, "input_hex": hex(text), "output": out, "why": "an accepted header was written back differently (a character was dropped or replaced)"}));
+            } else { rep.tally(&format!("kept:{class}")); }
+        }
+        Ok(Err(_)) => rep.tally(&format!("rejected:{class}")),
+    }
+}
+
 pub fn run(o: &Opts) -> Report {
     let mut rep = Report::new("C10");
     if let Some(path) = &o.replay {
@@ -352,6 +370,15 @@ pub fn run(o: &Opts) -> Report {
             let out = match std::panic::catch_unwind(move || if name == "basic" { BasicHeader::parse(&t3).map(|h| h.to_string()) } else { ApplicationHeader::parse(&t3).map(|h| h.to_string()) }) {
                 Ok(Ok(s)) => format!("ok {}", crate::extract::h(&s)), Ok(Err(_)) => "err".into(), Err(_) => "panic".into() };
             rep.model(format!("hdr {name} {}", crate::extract::h(&txt)), out);
+        }
+        // an output header whose 47th character is not one of the documented priorities U / N / S, an input header with an odd
+        // priority letter: rejected, or kept as written
+        if i % 5 == 2 {
+            let odd = *rng.pick(&['X', 'A', 'Z', '1', 'n', ' ']);
+            let mut b2: String = if env.b2.starts_with('O') { env.b2.chars().take(46).collect() } else { env.b2.chars().take(16).collect() };
+            b2.push(odd);
+            let e = Envelope { b1: env.b1.clone(), b2: b2.clone(), b3: None, b4: body.to_string(), b5: None };
+            expect_reject_or_verbatim(&mut rep, &e.text(), &b2, if b2.starts_with('O') { "b2-O-odd-priority" } else { "b2-I-odd-priority" });
         }
         // near misses: must be rejected, not partly read
         if i % 3 == 0 {
